@@ -1,6 +1,6 @@
 (* C06/Witness.v — non-vacuity: concrete schedules on which the hypotheses of the theorems in
    Properties.v hold, and the three layouts named in the plan, evaluated by vm_compute. *)
-From Verif Require Import Common.Base C06.Model C06.Proofs C06.Proofs2.
+From Verif Require Import Common.Base C06.Model C06.Proofs C06.Proofs2 C06.TreeModel C06.TreeProofs.
 
 Ltac slv := vm_compute; repeat split; try discriminate; auto 10.
 
@@ -85,3 +85,20 @@ Definition w_cancel := run (new_fan [false; false; false]) false [1]%Z [LCall; L
 Example cancel_calls : calls_of (elog w_cancel) = [0; 1; 2] /\ ctx_done (elog w_cancel) = true /\
   strip (elog w_cancel) = elog (run (new_fan [false; false; false]) false [1]%Z (calls 3)).
 Proof. slv. Qed.
+
+(* whole graph: receiver -> [pipeline A: mutating processor 1, exporters 2 (mut) and 3; pipeline B: exporter 4 and a
+   non-mutating connector 5 feeding pipeline C: mutating processor 6, exporter 7].  is_router holds; 3 and 4 never see
+   marker 1, 2 or 6; 7 sees 6 only. *)
+Definition w_tree : comp :=
+  CFanout [CCap (CProc 1 true (CFanout [CExp 2 true; CExp 3 false]));
+           CCap (CFanout [CExp 4 false; CConn 5 false (CFanout [CCap (CProc 6 true (CFanout [CExp 7 false]))])])].
+Example tree_shape : is_router w_tree = true /\ ok w_tree = true.
+Proof. split; reflexivity. Qed.
+Example tree_run : arrivals (snd (run_graph w_tree [])) =
+  [(1, []); (2, [1%Z]); (3, [1%Z]); (5, []); (6, []); (7, [6%Z]); (4, [])] /\ panics (snd (run_graph w_tree [])) = [].
+Proof. vm_compute. split; reflexivity. Qed.
+(* without the capabilitiesNode the tree is not well-formed, and the sibling DOES see the mutation (what the
+   capability computation is for): ok is a real hypothesis *)
+Definition w_bad : comp := CFanout [CProc 1 false (CProc 2 true (CFanout [CExp 3 false])); CExp 4 false].
+Example bad_not_ok : ok w_bad = false /\ panics (snd (run_graph w_bad [])) = [2].
+Proof. vm_compute. split; reflexivity. Qed.
